@@ -320,6 +320,26 @@ Section Removal.
       + exists w2. split; [exact Hrun |]. rewrite app_assoc. exact HR2.
     - rewrite app_nil_r. exact HR.
   Qed.
+  (** [removeIfSymlink] (fix D23) where no link is: one Lstat, nothing changes *)
+  Lemma remove_if_symlink_nolink (w : world) (p : str) :
+    quiet w -> swf (V w) -> snolinkpar (V w) p ->
+    (forall n, V w !! p = Some n -> node_kind n <> KLink) ->
+    exists w', remove_if_symlink a p w = (MOk tt, w') /\ V w' = V w /\ same_rest V' w w'.
+  Proof.
+    intros Hq Hwf Hnlp Hnl. unfold remove_if_symlink.
+    destruct (V w !! p) as [n|] eqn:Hp.
+    - destruct (law_lstat_some _ _ _ _ _ _ _ _ _ HLa w p n Hq Hwf Hnlp Hp)
+        as (fi & (w' & Hrun & HV & Hsr) & Him & _).
+      exists w'. split; [| split; [exact HV | exact Hsr]].
+      rewrite (bind_ok _ _ w w' (Ok fi) (try_ok _ w w' fi Hrun)). cbv beta iota.
+      pose proof (Hnl n eq_refl) as Hk. rewrite <- (proj1 Him) in Hk.
+      destruct (fi_kind fi); [reflexivity | reflexivity | contradiction Hk; reflexivity].
+    - destruct (law_lstat_none _ _ _ _ _ _ _ _ _ HLa w p Hq Hwf Hnlp Hp)
+        as (e & w' & Hrun & Hnf & HV & Hsr).
+      exists w'. split; [| split; [exact HV | exact Hsr]].
+      rewrite (bind_ok _ _ w w' (Err e) (try_err _ w w' e Hrun)). cbv beta iota.
+      unfold not_found in Hnf. rewrite Hnf. reflexivity.
+  Qed.
 End Removal.
 
 (* ------------------------------------------------------------------ *)
@@ -736,12 +756,21 @@ Section Rollback.
     Lemma dir_step (R : list str) (w : world) (p : str) (fi : finfo) :
       Prog R w -> infos !! p = Some (Some fi) -> p <> s_root -> fi_kind fi = KDir -> ~ In p R ->
       (forall a, In a (ancestors p) -> a <> s_root -> In a R) ->
-      exists w', copy_dir base p fi w = (MOk tt, w') /\ Prog (R ++ [p]) w'.
+      exists w', (remove_if_symlink base p ;;; copy_dir base p fi) w = (MOk tt, w') /\ Prog (R ++ [p]) w'.
     Proof.
-      intros HP Hi Hne Hk Hnin Hanc.
+      intros HP0 Hi Hne Hk Hnin Hanc.
       destruct (some_orig p fi Hi) as (n0 & Hn0 & Him).
-      pose proof (prog_sdirect R w p fi HP Hi Hanc) as Hdir.
       destruct (info_ids_nonneg fi n0 Him) as [Hu Hg].
+      (* removeIfSymlink: the entry, if there is one, is a directory *)
+      pose proof HP0 as (Hq0 & Hwf0 & _ & _ & _).
+      destruct (remove_if_symlink_nolink base Vb Vk tnb accb rhb whb hid anc HLb w p Hq0 Hwf0
+                  (sdirect_snolinkpar _ _ (prog_sdirect R w p fi HP0 Hi Hanc)))
+        as (wr & Hris & HVr & Hsrr).
+      { intros n Hp. rewrite (prog_kind R w p fi n HP0 Hnin Hi Hp), Hk. discriminate. }
+      rewrite (bind_ok _ _ w wr tt Hris).
+      pose proof (Prog_read R w wr HP0 (quiet_same_rest Vk w wr Hq0 Hsrr) HVr (proj1 Hsrr)) as HP.
+      clear Hq0 Hwf0 Hris HVr Hsrr HP0 w. rename wr into w.
+      pose proof (prog_sdirect R w p fi HP Hi Hanc) as Hdir.
       pose proof HP as (Hq & Hwf & HVk & _ & _).
       assert (Hcase : Vb w !! p = None \/ sdir (Vb w) p).
       { destruct (Vb w !! p) as [n|] eqn:Hp; [right | left; reflexivity].
@@ -795,21 +824,29 @@ Section Rollback.
       pose proof (quiet_same_rest Vb wa wb Hqa Hsrb) as Hqb.
       pose proof (Prog_read R wa wb HPa Hqb (proj1 Hsrb) HVkb) as HPb.
       assert (Hk2 : fi_kind fi2 = KFile) by exact (proj1 Him2).
+      (* removeIfSymlink on the base: the entry, if there is one, is a regular file *)
+      pose proof HPb as (_ & Hwfb1 & _ & _ & _).
+      destruct (remove_if_symlink_nolink base Vb Vk tnb accb rhb whb hid anc HLb wb p Hqb Hwfb1
+                  (sdirect_snolinkpar _ _ (prog_sdirect R wb p fi HPb Hi Hanc)))
+        as (wr & Hris & HVr & Hsrr).
+      { intros n Hp. rewrite (prog_kind R wb p fi n HPb Hnin Hi Hp), Hk. discriminate. }
+      pose proof (quiet_same_rest Vk wb wr Hqb Hsrr) as Hqr.
+      pose proof (Prog_read R wb wr HPb Hqr HVr (proj1 Hsrr)) as HPr.
       (* the copy *)
-      pose proof HPb as (_ & Hwfb & HVkb0 & _ & _).
-      assert (Hwfkb : swf (Vk wb)) by (rewrite HVkb0; exact Hwfk0).
-      assert (Hpkb : Vk wb !! p = Some (File m0 c0)) by (rewrite HVkb0; exact Hnk).
-      pose proof (prog_sdirect R wb p fi HPb Hi Hanc) as Hdir.
-      assert (Hcase : Vb wb !! p = None \/ exists m1 c1, Vb wb !! p = Some (File m1 c1)).
-      { destruct (Vb wb !! p) as [n|] eqn:Hp; [right | left; reflexivity].
-        pose proof (prog_kind R wb p fi n HPb Hnin Hi Hp) as Hkn. rewrite Hk in Hkn.
+      pose proof HPr as (_ & Hwfb & HVkb0 & _ & _).
+      assert (Hwfkb : swf (Vk wr)) by (rewrite HVkb0; exact Hwfk0).
+      assert (Hpkb : Vk wr !! p = Some (File m0 c0)) by (rewrite HVkb0; exact Hnk).
+      pose proof (prog_sdirect R wr p fi HPr Hi Hanc) as Hdir.
+      assert (Hcase : Vb wr !! p = None \/ exists m1 c1, Vb wr !! p = Some (File m1 c1)).
+      { destruct (Vb wr !! p) as [n|] eqn:Hp; [right | left; reflexivity].
+        pose proof (prog_kind R wr p fi n HPr Hnin Hi Hp) as Hkn. rewrite Hk in Hkn.
         destruct n as [m | m c | m t]; simpl in Hkn; try discriminate Hkn.
         exists m, c. reflexivity. }
       destruct (copy_file_spec base backup Vb Vk tnb tnk accb acck rhb rhk whb whk hid nohid anc nohid HLb HLk
-                  wb p fi h p m0 c0 Hqb Hwfb Hwfkb Hdir Hk Hu Hg Hcase Hrh Hpkb (Hsmall p m0 c0 Hn0)
+                  wr p fi h p m0 c0 Hqr Hwfb Hwfkb Hdir Hk Hu Hg Hcase Hrh Hpkb (Hsmall p m0 c0 Hn0)
                   (orig_not_hid p _ Hn0))
         as (wc & m' & Hcp & (Hsrc & Hwfc & Heqvc) & Hpc & Hmeta & Hmt).
-      pose proof (quiet_same_rest Vk wb wc Hqb Hsrc) as Hqc.
+      pose proof (quiet_same_rest Vk wr wc Hqr Hsrc) as Hqc.
       (* Close *)
       destruct (law_hclose_r _ _ _ _ _ _ _ _ _ HLk wc h p 0%nat Hqc Hrh) as (wd & Hclose & HVkd & Hsrd).
       pose proof (quiet_same_rest Vb wc wd Hqc Hsrd) as Hqd.
@@ -819,10 +856,11 @@ Section Rollback.
         rewrite (bind_ok _ _ wa wb (Ok fi2) (try_ok _ wa wb fi2 Hstat)). cbv beta iota.
         rewrite Hk2.
         rewrite (bind_ok _ _ wb wb (Ok tt) eq_refl). cbv beta iota.
-        rewrite (bind_ok _ _ wb wc (Ok tt) (try_ok _ wb wc tt Hcp)).
+        rewrite (bind_ok _ _ wb wr (Ok tt) (try_ok _ wb wr tt Hris)). cbv beta iota.
+        rewrite (bind_ok _ _ wr wc (Ok tt) (try_ok _ wr wc tt Hcp)).
         rewrite (bind_ok _ _ wc wd (Ok tt) (try_ok _ wc wd tt Hclose)).
         reflexivity.
-      - apply (Prog_step R wb wd p HPb Hqd).
+      - apply (Prog_step R wr wd p HPr Hqd).
         + rewrite (proj1 Hsrd). exact Hwfc.
         + rewrite HVkd, (proj1 Hsrc). exact HVkb0.
         + rewrite (proj1 Hsrd). exact Heqvc.
@@ -934,14 +972,14 @@ Section Rollback.
     Lemma dirs_pass (w : world) :
       Prog [] w ->
       exists w', collect_errs (fun p => match info_of_key infos p with
-                                        | Some fi => copy_dir base p fi
+                                        | Some fi => remove_if_symlink base p ;;; copy_dir base p fi
                                         | None => fail EOther end) (sort_least l_ds) w = (MOk [], w') /\
                  Prog l_ds w'.
     Proof.
       intros HP.
       destruct (collect_errs_inv
                   (fun p => match info_of_key infos p with
-                            | Some fi => copy_dir base p fi
+                            | Some fi => remove_if_symlink base p ;;; copy_dir base p fi
                             | None => fail EOther end)
                   (fun done w' => Prog done w') (sort_least l_ds) w) as (w' & Hrun & HP').
       - intros done p todo w1 El HP1.
